@@ -7,7 +7,7 @@
 //! comparison of the real code against itself.  Last line of stdout is one JSON object:
 //!   {"status":"found","property":..,"input":..,"observed":..,"expected":..}
 //!   {"status":"not-found","tried":N}
-use micro_http::{Body, HttpConnection, HttpServer, Method, Request, Response, StatusCode, Version};
+use micro_http::{Body, EndpointHandler, HttpConnection, HttpRoutes, HttpServer, Method, Request, Response, StatusCode, Version};
 use std::io::{Read, Write};
 use std::os::unix::io::AsRawFd;
 use std::os::unix::net::UnixStream;
@@ -719,6 +719,86 @@ fn search_c16(_budget: usize) {
     println!("{{\"status\":\"not-found\",\"tried\":{}}}", tried);
 }
 
+// ---------------------------------------------------------------- C17: router
+struct CountingHandler { id: usize, calls: std::sync::Arc<std::sync::Mutex<Vec<usize>>> }
+impl EndpointHandler<u8> for CountingHandler {
+    fn handle_request(&self, _req: &Request, _arg: &u8) -> Response {
+        self.calls.lock().unwrap().push(self.id);
+        let mut r = Response::new(Version::Http11, StatusCode::OK);
+        r.set_body(Body::new(format!("handler-{}", self.id)));
+        r.set_server("set-by-handler");
+        r
+    }
+}
+
+fn search_c17(budget: usize) {
+    // route tables over a small path alphabet (paths that are prefixes of one another, empty prefix, ':' in paths),
+    // every registration order with duplicates; then every request over the alphabet in origin- and absolute-form
+    let methods = [Method::Get, Method::Put, Method::Patch];
+    let paths = ["/", "/a", "/a/b", "/a:b", "/T:/a", "/b", "", "a", ":", "/a/"];
+    let prefixes = ["", "/api", "/a", ":"];
+    let mut rng = Rng(0x17c0ffee);
+    let mut tried = 0usize;
+    for round in 0..budget.max(40) / 4 {
+        let prefix = prefixes[if round < prefixes.len() { round } else { rng.below(prefixes.len()) }];
+        let calls = std::sync::Arc::new(std::sync::Mutex::new(Vec::new()));
+        let mut router: HttpRoutes<u8> = HttpRoutes::new("SRV-ID".to_string(), prefix.to_string());
+        let mut table: Vec<(Method, String, usize)> = vec![];  // reference: first registration wins
+        let n = 1 + rng.below(8);
+        let mut script = String::new();
+        for id in 0..n {
+            let m = methods[rng.below(3)];
+            let p = paths[rng.below(paths.len())];
+            let full = format!("{}{}", prefix, p);
+            let r = router.add_route(m, p.to_string(), Box::new(CountingHandler { id, calls: calls.clone() }));
+            let dup = table.iter().any(|(tm, tp, _)| *tm == m && *tp == full);
+            script.push_str(&format!("add_route({:?}, {:?}) ", m, p));
+            if r.is_ok() == dup {
+                found("C17", format!("prefix {:?}: {}", prefix, script), format!("add_route -> {}", if r.is_ok() { "Ok" } else { "Err" }),
+                      if dup { "Err (already registered)".into() } else { "Ok".into() });
+            }
+            if !dup { table.push((m, full, id)); }
+        }
+        // requests
+        for m in methods {
+            for p in paths {
+                for form in 0..3 {
+                    let target = format!("{}{}", prefix, p);
+                    let uri = match form { 0 => target.clone(), 1 => format!("http://localhost{}", target), _ => format!("http://h:80{}", target) };
+                    if uri.is_empty() || uri.contains(' ') { continue; }
+                    let line = format!("{} {} HTTP/1.1\r\n\r\n", std::str::from_utf8(m.raw()).unwrap(), uri);
+                    let req = match Request::try_from(line.as_bytes(), None) { Ok(r) => r, Err(_) => continue };
+                    let abs = abs_path(&uri);
+                    calls.lock().unwrap().clear();
+                    let resp = router.handle_http_request(&req, &0u8);
+                    tried += 1;
+                    let want = table.iter().find(|(tm, tp, _)| *tm == m && *tp == abs).map(|t| t.2);
+                    let got = calls.lock().unwrap().clone();
+                    let desc = format!("prefix {:?}: {}; then request {}", prefix, script, esc(line.as_bytes()));
+                    match want {
+                        Some(id) => {
+                            if got != vec![id] { found("C17", desc, format!("handlers invoked: {:?}", got), format!("exactly [{}] (registered for {:?} {})", id, m, abs)); }
+                            if resp.status() != StatusCode::OK || resp.body().map(|b| b.raw().to_vec()) != Some(format!("handler-{}", id).into_bytes()) {
+                                found("C17", desc, format!("status {:?} body {:?}", resp.status(), resp.body().map(|b| esc(b.raw()))), format!("the response of handler {}", id));
+                            }
+                        }
+                        None => {
+                            if !got.is_empty() { found("C17", desc, format!("handlers invoked: {:?}", got), "none (no route for this method and path)".into()); }
+                            if resp.status() != StatusCode::NotFound { found("C17", desc, format!("status {:?}", resp.status()), "404 NotFound".into()); }
+                        }
+                    }
+                    let mut out = vec![];
+                    resp.write_all(&mut out).unwrap();
+                    let text = String::from_utf8_lossy(&out).to_string();
+                    if !text.contains("\r\nServer: SRV-ID\r\n") { found("C17", desc, esc(&out), "Server: SRV-ID".into()); }
+                    if !text.contains("\r\nContent-Type: application/json\r\n") { found("C17", desc, esc(&out), "Content-Type: application/json".into()); }
+                }
+            }
+        }
+    }
+    println!("{{\"status\":\"not-found\",\"tried\":{}}}", tried);
+}
+
 fn ready(server: &HttpServer) -> bool {
     let mut p = libc::pollfd { fd: server.epoll().as_raw_fd(), events: libc::POLLIN, revents: 0 };
     unsafe { libc::poll(&mut p, 1, 100) > 0 }
@@ -785,6 +865,7 @@ fn main() {
         "C11" => search_c11(budget),
         "C12" => search_c12(budget),
         "C16" => search_c16(budget),
+        "C17" => search_c17(budget),
         _ => println!("{{\"status\":\"not-found\",\"tried\":0}}"),
     }
 }
